@@ -140,6 +140,11 @@ theorem Mono.trans {a b c : B} (h1 : Mono a b) (h2 : Mono b c) : Mono a c :=
   ⟨fun h => h1.err (h2.err h), fun e h => h2.edges e (h1.edges e h), Nat.le_trans h1.heapLen h2.heapLen,
    fun r x h => h2.deref r x (h1.deref r x h)⟩
 
+/-- All set references held by the builder point into the heap. -/
+structure Valid (b : B) : Prop where
+  leaves : b.leaves < b.heap.length
+  condEntry : ∀ k r, aget k b.condEntry = some r → r < b.heap.length
+
 /-- `Frame K b b'`: going from `b` to `b'` only grows the monotone parts, and leaves the dictionaries alone at every key
 outside `K` (`exits`/`continues`/`raises` may gain members). -/
 structure Frame (K : List Nat) (b b' : B) : Prop extends Mono b b' where
@@ -149,18 +154,19 @@ structure Frame (K : List Nat) (b b' : B) : Prop extends Mono b b' where
   sectionEntry : ∀ k, k ∉ K → aget k b'.sectionEntry = aget k b.sectionEntry
   condEntry : ∀ k, k ∉ K → aget k b'.condEntry = aget k b.condEntry
   condLeaves : ∀ k, k ∉ K → aget k b'.condLeaves = aget k b.condLeaves
+  valid : Valid b → Valid b'
 
 theorem Frame.refl (K : List Nat) (b : B) : Frame K b b :=
   ⟨Mono.refl b, fun _ _ l h => ⟨l, h, fun _ h => h⟩, fun _ _ l h => ⟨l, h, fun _ h => h⟩,
-   fun _ _ l h => ⟨l, h, fun _ h => h⟩, fun _ _ => rfl, fun _ _ => rfl, fun _ _ => rfl⟩
+   fun _ _ l h => ⟨l, h, fun _ h => h⟩, fun _ _ => rfl, fun _ _ => rfl, fun _ _ => rfl, id⟩
 
 theorem Frame.weaken {K K' : List Nat} {b b' : B} (h : Frame K b b') (hs : ∀ k, k ∈ K → k ∈ K') : Frame K' b b' :=
   ⟨h.toMono, fun k hk => h.exits k (fun h' => hk (hs k h')), fun k hk => h.continues k (fun h' => hk (hs k h')),
    fun k hk => h.raises k (fun h' => hk (hs k h')), fun k hk => h.sectionEntry k (fun h' => hk (hs k h')),
-   fun k hk => h.condEntry k (fun h' => hk (hs k h')), fun k hk => h.condLeaves k (fun h' => hk (hs k h'))⟩
+   fun k hk => h.condEntry k (fun h' => hk (hs k h')), fun k hk => h.condLeaves k (fun h' => hk (hs k h')), h.valid⟩
 
 theorem Frame.trans {K : List Nat} {a b c : B} (h1 : Frame K a b) (h2 : Frame K b c) : Frame K a c := by
-  refine ⟨h1.toMono.trans h2.toMono, ?_, ?_, ?_, ?_, ?_, ?_⟩
+  refine ⟨h1.toMono.trans h2.toMono, ?_, ?_, ?_, ?_, ?_, ?_, fun h => h2.valid (h1.valid h)⟩
   · intro k hk l hl
     obtain ⟨l1, hl1, s1⟩ := h1.exits k hk l hl
     obtain ⟨l2, hl2, s2⟩ := h2.exits k hk l1 hl1
@@ -180,8 +186,8 @@ theorem Frame.trans {K : List Nat} {a b c : B} (h1 : Frame K a b) (h2 : Frame K 
 /-- A step that touches none of the tracked dictionaries. -/
 theorem Frame.of_mono {K : List Nat} {b b' : B} (hm : Mono b b') (h1 : b'.exits = b.exits) (h2 : b'.continues = b.continues)
     (h3 : b'.raises = b.raises) (h4 : b'.sectionEntry = b.sectionEntry) (h5 : b'.condEntry = b.condEntry)
-    (h6 : b'.condLeaves = b.condLeaves) : Frame K b b' := by
-  refine ⟨hm, ?_, ?_, ?_, ?_, ?_, ?_⟩
+    (h6 : b'.condLeaves = b.condLeaves) (hv : Valid b → b'.leaves < b'.heap.length) : Frame K b b' := by
+  refine ⟨hm, ?_, ?_, ?_, ?_, ?_, ?_, fun v => ⟨hv v, fun k r hr => Nat.lt_of_lt_of_le (v.condEntry k r (by rw [← h5]; exact hr)) hm.heapLen⟩⟩
   · intro k _ l hl; exact ⟨l, by rw [h1]; exact hl, fun _ h => h⟩
   · intro k _ l hl; exact ⟨l, by rw [h2]; exact hl, fun _ h => h⟩
   · intro k _ l hl; exact ⟨l, by rw [h3]; exact hl, fun _ h => h⟩
@@ -527,14 +533,35 @@ theorem frame_basicExprs (K) (σ : List Scope) : ∀ (es : List Expr) (b : B) (a
 
 theorem mem_keys_head (i : Nat) (r : List Nat) : i ∈ i :: r := List.mem_cons_self ..
 
+theorem frame_optSection (K) (rep : Option Nat) (pre post : Nat → B → B) (visit : Nat → B → Acc → B × Acc) (r : B × Acc)
+    (hpre : ∀ k b, rep = some k → Frame K b (pre k b)) (hpost : ∀ k b, rep = some k → Frame K b (post k b))
+    (hvisit : ∀ k b a, rep = some k → Frame K b (visit k b a).1) : Frame K r.1 (optSection rep pre post visit r).1 := by
+  cases rep with
+  | none => exact Frame.refl K _
+  | some k =>
+    simp only [optSection]
+    exact Frame.trans (Frame.trans (hpre k _ rfl) (hvisit k _ _ rfl)) (hpost k _ rfl)
+
+theorem head_id_mem_keysL (ss : List Stmt) (k : Nat) (h : ss.head?.map Stmt.id = some k) : k ∈ keysL ss := by
+  cases ss with
+  | nil => simp at h
+  | cons s rest =>
+    simp only [List.head?_cons, Option.map_some, Option.some.injEq] at h
+    subst h
+    simp only [keysL, List.mem_append]
+    left
+    cases s <;> simp [stmtKeys', Stmt.id]
+    split <;> simp
+
 mutual
 theorem frame_visitStmt : ∀ (s : Stmt) (σ : List Scope) (b : B) (a : Acc), Frame (stmtKeys' s) b (visitStmt σ s b a).1
   | .functionDef i name args body decs rets isAsync, σ, b, a => by
     cases isAsync with
     | true =>
       simp only [visitStmt, if_true, stmtKeys']
-      refine Frame.trans (frame_addOrdinaryNodes _ _ b) (Frame.trans ((frame_visitStmts body σ _ _).weaken ?_) (frame_addOrdinaryNodes _ _ _))
-      intro k hk; exact List.mem_cons_of_mem _ hk
+      refine Frame.trans ?_ (frame_addOrdinaryNodes _ _ _)
+      refine Frame.trans ?_ ((frame_visitStmts body σ _ _).weaken (fun k hk => List.mem_cons_of_mem _ hk))
+      exact frame_addOrdinaryNodes _ _ b
     | false =>
       simp only [visitStmt, Bool.false_eq_true, if_false]
       exact B.frame_addOrdinaryNode _ b i
@@ -556,44 +583,44 @@ theorem frame_visitStmt : ∀ (s : Stmt) (σ : List Scope) (b : B) (a : Acc), Fr
   | .if_ i test body orelse, σ, b, a => by
     simp only [visitStmt, stmtKeys']
     have hi : i ∈ i :: (keysL body ++ keysL orelse) := mem_keys_head _ _
-    refine Frame.trans (B.frame_beginStatement _ b i) ?_
-    refine Frame.trans (B.frame_enterCondSection _ _ i hi) ?_
-    refine Frame.trans (frame_basicExpr _ σ test _ a) ?_
-    refine Frame.trans (B.frame_newCondBranch _ _ i hi) ?_
-    refine Frame.trans ((frame_visitStmts body σ _ _).weaken (fun k hk => List.mem_cons_of_mem _ (List.mem_append.mpr (Or.inl hk)))) ?_
-    refine Frame.trans (B.frame_newCondBranch _ _ i hi) ?_
-    refine Frame.trans ((frame_visitStmts orelse σ _ _).weaken (fun k hk => List.mem_cons_of_mem _ (List.mem_append.mpr (Or.inr hk)))) ?_
-    exact Frame.trans (B.frame_exitCondSection _ _ i hi) (B.frame_endStatement _ _ i)
+    refine Frame.trans ?_ (B.frame_endStatement _ _ i)
+    refine Frame.trans ?_ (B.frame_exitCondSection _ _ i hi)
+    refine Frame.trans ?_ ((frame_visitStmts orelse σ _ _).weaken (fun k hk => List.mem_cons_of_mem _ (List.mem_append.mpr (Or.inr hk))))
+    refine Frame.trans ?_ (B.frame_newCondBranch _ _ i hi)
+    refine Frame.trans ?_ ((frame_visitStmts body σ _ _).weaken (fun k hk => List.mem_cons_of_mem _ (List.mem_append.mpr (Or.inl hk))))
+    refine Frame.trans ?_ (B.frame_newCondBranch _ _ i hi)
+    refine Frame.trans ?_ (frame_basicExpr _ σ test _ a)
+    exact Frame.trans (B.frame_beginStatement _ b i) (B.frame_enterCondSection _ _ i hi)
   | .while_ i test body orelse, σ, b, a => by
     simp only [visitStmt, stmtKeys']
     have hi : i ∈ i :: (keysL body ++ keysL orelse) := mem_keys_head _ _
-    refine Frame.trans (B.frame_beginStatement _ b i) ?_
-    refine Frame.trans (B.frame_enterSection _ _ i hi) ?_
-    refine Frame.trans (frame_addOrdinaryNodes _ _ _) ?_
-    refine Frame.trans (B.frame_enterLoopSection _ _ i _ hi) ?_
-    refine Frame.trans ((frame_visitStmts body _ _ _).weaken (fun k hk => List.mem_cons_of_mem _ (List.mem_append.mpr (Or.inl hk)))) ?_
-    refine Frame.trans (B.frame_exitLoopSection _ _ i hi) ?_
-    refine Frame.trans ((frame_visitStmts orelse σ _ _).weaken (fun k hk => List.mem_cons_of_mem _ (List.mem_append.mpr (Or.inr hk)))) ?_
-    exact Frame.trans (B.frame_exitSection _ _ i hi) (B.frame_endStatement _ _ i)
+    refine Frame.trans ?_ (B.frame_endStatement _ _ i)
+    refine Frame.trans ?_ (B.frame_exitSection _ _ i hi)
+    refine Frame.trans ?_ ((frame_visitStmts orelse σ _ _).weaken (fun k hk => List.mem_cons_of_mem _ (List.mem_append.mpr (Or.inr hk))))
+    refine Frame.trans ?_ (B.frame_exitLoopSection _ _ i hi)
+    refine Frame.trans ?_ ((frame_visitStmts body _ _ _).weaken (fun k hk => List.mem_cons_of_mem _ (List.mem_append.mpr (Or.inl hk))))
+    refine Frame.trans ?_ (B.frame_enterLoopSection _ _ i _ hi)
+    refine Frame.trans ?_ (frame_addOrdinaryNodes _ _ _)
+    exact Frame.trans (B.frame_beginStatement _ b i) (B.frame_enterSection _ _ i hi)
   | .for_ i target iter body orelse extra isAsync, σ, b, a => by
     cases isAsync with
     | true =>
       simp only [visitStmt, if_true, stmtKeys']
-      refine Frame.trans (frame_addOrdinaryNodes _ _ b) ?_
-      refine Frame.trans ((frame_visitStmts body σ _ _).weaken (fun k hk => List.mem_cons_of_mem _ (List.mem_append.mpr (Or.inl hk)))) ?_
-      exact (frame_visitStmts orelse σ _ _).weaken (fun k hk => List.mem_cons_of_mem _ (List.mem_append.mpr (Or.inr hk)))
+      refine Frame.trans ?_ ((frame_visitStmts orelse σ _ _).weaken (fun k hk => List.mem_cons_of_mem _ (List.mem_append.mpr (Or.inr hk))))
+      refine Frame.trans ?_ ((frame_visitStmts body σ _ _).weaken (fun k hk => List.mem_cons_of_mem _ (List.mem_append.mpr (Or.inl hk))))
+      exact frame_addOrdinaryNodes _ _ b
     | false =>
       simp only [visitStmt, Bool.false_eq_true, if_false, stmtKeys']
       have hi : i ∈ i :: (keysL body ++ keysL orelse) := mem_keys_head _ _
-      refine Frame.trans (B.frame_beginStatement _ b i) ?_
-      refine Frame.trans (B.frame_enterSection _ _ i hi) ?_
-      refine Frame.trans (frame_addOrdinaryNodes _ _ _) ?_
-      refine Frame.trans (B.frame_enterLoopSection _ _ i _ hi) ?_
-      refine Frame.trans (frame_basicExprs _ _ _ _ _) ?_
-      refine Frame.trans ((frame_visitStmts body _ _ _).weaken (fun k hk => List.mem_cons_of_mem _ (List.mem_append.mpr (Or.inl hk)))) ?_
-      refine Frame.trans (B.frame_exitLoopSection _ _ i hi) ?_
-      refine Frame.trans ((frame_visitStmts orelse σ _ _).weaken (fun k hk => List.mem_cons_of_mem _ (List.mem_append.mpr (Or.inr hk)))) ?_
-      exact Frame.trans (B.frame_exitSection _ _ i hi) (B.frame_endStatement _ _ i)
+      refine Frame.trans ?_ (B.frame_endStatement _ _ i)
+      refine Frame.trans ?_ (B.frame_exitSection _ _ i hi)
+      refine Frame.trans ?_ ((frame_visitStmts orelse σ _ _).weaken (fun k hk => List.mem_cons_of_mem _ (List.mem_append.mpr (Or.inr hk))))
+      refine Frame.trans ?_ (B.frame_exitLoopSection _ _ i hi)
+      refine Frame.trans ?_ ((frame_visitStmts body _ _ _).weaken (fun k hk => List.mem_cons_of_mem _ (List.mem_append.mpr (Or.inl hk))))
+      refine Frame.trans ?_ (frame_basicExprs _ _ _ _ _)
+      refine Frame.trans ?_ (B.frame_enterLoopSection _ _ i _ hi)
+      refine Frame.trans ?_ (frame_addOrdinaryNodes _ _ _)
+      exact Frame.trans (B.frame_beginStatement _ b i) (B.frame_enterSection _ _ i hi)
   | .with_ i items body isAsync, σ, b, a => by
     cases isAsync with
     | true =>
@@ -612,42 +639,36 @@ theorem frame_visitStmt : ∀ (s : Stmt) (σ : List Scope) (b : B) (a : Acc), Fr
       fun k hk => List.mem_cons_of_mem _ (List.mem_append.mpr (Or.inr (List.mem_append.mpr (Or.inr (List.mem_append.mpr (Or.inl hk))))))
     have kf : ∀ k, k ∈ keysL final → k ∈ i :: (keysL body ++ (keysL handlers ++ (keysL orelse ++ keysL final))) :=
       fun k hk => List.mem_cons_of_mem _ (List.mem_append.mpr (Or.inr (List.mem_append.mpr (Or.inr (List.mem_append.mpr (Or.inr hk))))))
-    refine Frame.trans (B.frame_endStatement _ _ i) (Frame.refl _ _) |> fun h => Frame.trans ?_ h
-    -- step 1: body
-    have h1 := Frame.trans (B.frame_beginStatement (i :: (keysL body ++ (keysL handlers ++ (keysL orelse ++ keysL final)))) b i)
-      ((frame_visitStmts body (Scope.try_ i (!final.isEmpty) (handlerIds handlers) :: σ) (b.beginStatement i) a).weaken kb)
-    -- step 2: orelse
-    have h2 : Frame (i :: (keysL body ++ (keysL handlers ++ (keysL orelse ++ keysL final)))) b
-        (match orelse with
-          | [] => visitStmts (Scope.try_ i (!final.isEmpty) (handlerIds handlers) :: σ) body (b.beginStatement i) a
-          | rep :: _ =>
-            ((((visitStmts (Scope.try_ i (!final.isEmpty) (handlerIds handlers) :: σ) orelse
-              (((visitStmts (Scope.try_ i (!final.isEmpty) (handlerIds handlers) :: σ) body (b.beginStatement i) a).1.enterCondSection rep.id).newCondBranch rep.id)
-              (visitStmts (Scope.try_ i (!final.isEmpty) (handlerIds handlers) :: σ) body (b.beginStatement i) a).2).1.newCondBranch rep.id).exitCondSection rep.id),
-             (visitStmts (Scope.try_ i (!final.isEmpty) (handlerIds handlers) :: σ) orelse
-              (((visitStmts (Scope.try_ i (!final.isEmpty) (handlerIds handlers) :: σ) body (b.beginStatement i) a).1.enterCondSection rep.id).newCondBranch rep.id)
-              (visitStmts (Scope.try_ i (!final.isEmpty) (handlerIds handlers) :: σ) body (b.beginStatement i) a).2).2)).1 := by
-      cases orelse with
-      | nil => exact h1
-      | cons rep rest =>
-        have hr : rep.id ∈ i :: (keysL body ++ (keysL handlers ++ (keysL (rep :: rest) ++ keysL final))) := by
-          apply ko
-          simp only [keysL, List.mem_append]
-          left
-          cases rep <;> simp [stmtKeys', Stmt.id] <;> (try split) <;> simp
-        refine Frame.trans h1 ?_
-        refine Frame.trans (B.frame_enterCondSection _ _ _ hr) ?_
-        refine Frame.trans (B.frame_newCondBranch _ _ _ hr) ?_
-        refine Frame.trans ((frame_visitStmts (rep :: rest) _ _ _).weaken ko) ?_
-        exact Frame.trans (B.frame_newCondBranch _ _ _ hr) (B.frame_exitCondSection _ _ _ hr)
-    sorry
+    refine Frame.trans ?_ (B.frame_endStatement _ _ i)
+    refine Frame.trans ?_ (frame_optSection _ _ _ _ _ _ ?_ ?_ ?_)
+    refine Frame.trans ?_ (frame_optSection _ _ _ _ _ _ ?_ ?_ ?_)
+    refine Frame.trans ?_ (frame_optSection _ _ _ _ _ _ ?_ ?_ ?_)
+    · exact Frame.trans (B.frame_beginStatement _ b i) ((frame_visitStmts body _ _ _).weaken kb)
+    · intro k b' hk
+      have hk' := ko k (head_id_mem_keysL orelse k hk)
+      exact Frame.trans (B.frame_enterCondSection _ _ k hk') (B.frame_newCondBranch _ _ k hk')
+    · intro k b' hk
+      have hk' := ko k (head_id_mem_keysL orelse k hk)
+      exact Frame.trans (B.frame_newCondBranch _ _ k hk') (B.frame_exitCondSection _ _ k hk')
+    · intro k b' a' _
+      exact (frame_visitStmts orelse _ b' a').weaken ko
+    · intro k b' hk
+      exact B.frame_enterCondSection _ _ k (kh k (head_id_mem_keysL handlers k hk))
+    · intro k b' hk
+      have hk' := kh k (head_id_mem_keysL handlers k hk)
+      exact Frame.trans (B.frame_newCondBranch _ _ k hk') (B.frame_exitCondSection _ _ k hk')
+    · intro k b' a' hk
+      exact frame_visitHandlers handlers σ k _ (kh k (head_id_mem_keysL handlers k hk)) kh b' a'
+    · intro k b' _; exact B.frame_enterFinallySection _ _ _
+    · intro k b' _; exact B.frame_exitFinallySection _ _ _
+    · intro k b' a' _
+      exact (frame_visitStmts final σ b' a').weaken kf
   | .handler i ty name body, σ, b, a => by
     simp only [visitStmt, stmtKeys']
-    refine Frame.trans (B.frame_beginStatement _ b i) ?_
-    refine Frame.trans (B.frame_enterExceptSection _ _ i) ?_
-    refine Frame.trans (frame_addOrdinaryNodes _ _ _) ?_
-    refine Frame.trans ((frame_visitStmts body σ _ _).weaken (fun k hk => List.mem_cons_of_mem _ hk)) ?_
-    exact B.frame_endStatement _ _ i
+    refine Frame.trans ?_ (B.frame_endStatement _ _ i)
+    refine Frame.trans ?_ ((frame_visitStmts body σ _ _).weaken (fun k hk => List.mem_cons_of_mem _ hk))
+    refine Frame.trans ?_ (frame_addOrdinaryNodes _ _ _)
+    exact Frame.trans (B.frame_beginStatement _ b i) (B.frame_enterExceptSection _ _ i)
   | .other i kind es bs, σ, b, a => by
     simp only [visitStmt]
     exact Frame.refl _ b
@@ -680,6 +701,15 @@ theorem frame_visitStmts : ∀ (ss : List Stmt) (σ : List Scope) (b : B) (a : A
     simp only [visitStmts, keysL]
     exact Frame.trans ((frame_visitStmt s σ b a).weaken (fun k hk => List.mem_append.mpr (Or.inl hk)))
       ((frame_visitStmts ss σ _ _).weaken (fun k hk => List.mem_append.mpr (Or.inr hk)))
+
+theorem frame_visitHandlers : ∀ (hs : List Stmt) (σ : List Scope) (rep : Nat) (K : List Nat), rep ∈ K →
+    (∀ k, k ∈ keysL hs → k ∈ K) → ∀ (b : B) (a : Acc), Frame K b (visitHandlers σ rep hs b a).1
+  | [], σ, rep, K, _, _, b, a => by simp only [visitHandlers]; exact Frame.refl _ b
+  | h :: hs, σ, rep, K, hrep, hk, b, a => by
+    simp only [visitHandlers]
+    refine Frame.trans ?_ (frame_visitHandlers hs σ rep K hrep (fun k hk' => hk k (by simp only [keysL, List.mem_append]; exact Or.inr hk')) _ _)
+    refine Frame.trans (B.frame_newCondBranch _ _ rep hrep) ?_
+    exact (frame_visitStmt h σ _ _).weaken (fun k hk' => hk k (by simp only [keysL, List.mem_append]; exact Or.inl hk'))
 end
 
 end Malt.Cfg
